@@ -35,7 +35,7 @@ func installCipher(conn *mcnet.Conn, secret []byte, oneBlock bool) {
 // checkConnStaged: k1 packets in the clear without compression, then the first setting on both ends, k2 packets, then the
 // second setting, then the rest. The receiver gets the whole wire in planned fragments that do not respect frame boundaries:
 // whatever a Conn read ahead of the frame it returned, or kept in the reader it replaces, would be missing afterwards.
-func checkConnStaged(c *vm.Ctx, r *vm.Rand) {
+func checkConnStaged(c *vm.Ctx, r *vm.Rand, tcp *loopback) {
 	secret := ivSlice(c, r)
 	threshold := []int{0, 64, 256, 1}[r.Intn(4)]
 	cipherFirst := r.Intn(4) != 0 // the protocol's order three times out of four
@@ -121,6 +121,25 @@ func checkConnStaged(c *vm.Ctx, r *vm.Rand) {
 		}
 	}
 	recv := mcnet.WrapConn(&duplexEnd{r: &inject.ChunkReader{B: wire.Bytes(), Plan: plan}, w: &bytes.Buffer{}})
+	// one receiver in four is the Conn a Listener hands out, with the whole wire - plain stage, cipher stage and all -
+	// already on its way when the first packet is read (a peer that does not wait for answers between its packets)
+	if tcp != nil && r.Intn(4) == 0 {
+		client, server, err := tcp.pair()
+		if err != nil {
+			c.Inconclusive("C10: loopback TCP connection could not be made: " + err.Error())
+			return
+		}
+		defer client.Close()
+		defer server.Close()
+		go func(b []byte) {
+			client.Socket.Write(b)
+			if t, ok := client.Socket.(*net.TCPConn); ok {
+				t.CloseWrite()
+			}
+		}(append([]byte{}, wire.Bytes()...))
+		recv = &server
+		c.Cover("conn.staged.receiver-from-Listener.Accept")
+	}
 	c.Guard("conn-staged/read", wit, func() {
 		var p pk.Packet
 		i := 0
